@@ -284,6 +284,25 @@ Definition view_pairs (cv : list category) : list (text * jmerchant) := flat_map
 Definition view_merchants (cv : list category) : list jmerchant := map snd (view_pairs cv).
 
 Definition sumZ (l : list Z) : Z := fold_right Z.add 0 l.
+
+(* categories[cat]['typeTotals']: computed after grouping, from the transactions of the merchants
+   listed under the category, each classified by ITS OWN tags (lower-cased):
+   income > investment > transfer > (amount >= 0: spending); other negatives are credits (not kept) *)
+Definition txn_has (w : text) (t : txn) : bool := existsb (fun g => text_eqb (lower_text g) w) (t_tags t).
+Definition tt_income (t : txn) : Z := if txn_has (cps "income") t then Z.abs (t_amount t) else 0.
+Definition tt_investment (t : txn) : Z :=
+  if txn_has (cps "income") t then 0 else if txn_has (cps "investment") t then Z.abs (t_amount t) else 0.
+Definition tt_transfer (t : txn) : Z :=
+  if txn_has (cps "income") t then 0 else if txn_has (cps "investment") t then 0
+  else if txn_has (cps "transfer") t then Z.abs (t_amount t) else 0.
+Definition tt_spending (t : txn) : Z :=
+  if txn_has (cps "income") t then 0 else if txn_has (cps "investment") t then 0
+  else if txn_has (cps "transfer") t then 0 else if 0 <=? t_amount t then t_amount t else 0.
+Definition cat_txns (c : category) : list txn := flat_map (fun p => j_txns (snd p)) (cat_pairs c).
+Definition cat_tt (f : txn -> Z) (c : category) : Z := sumZ (map f (cat_txns c)).
+(* (spending, income, investment, transfer) *)
+Definition type_totals (c : category) : Z * (Z * (Z * Z)) :=
+  (cat_tt tt_spending c, (cat_tt tt_income c, (cat_tt tt_investment c, cat_tt tt_transfer c))).
 Definition named_txns_j (js : list jmerchant) : list (text * txn) :=
   flat_map (fun j => map (pair (j_name j)) (j_txns j)) js.
 Definition named_txns (ms : list merchant) : list (text * txn) :=
